@@ -4,7 +4,13 @@ proof:   AQ.Props.C08 (ledger, callbacks-once, window floor) for the model
          AQ.Model.Recovery, generic in the float arithmetic
 tie:     T2 bit-exact correspondence (Lean Float = IEEE double) against the real
          QuicPacketRecovery + Reno/CUBIC for arbitrary interleavings
-oracle:  ledger / once-only / floor evaluated on the implementation's trace
+oracle:  ledger / once-only / floor evaluated on the implementation's trace;
+         flight budget (last clause) evaluated per datagrams_to_send() on real
+         connections (in-flight bytes of the packets sent by the call <= window -
+         bytes in flight before it, one datagram more while a probe is pending) —
+         including a resuming client whose window is 1199 .. max_datagram_size+1
+         from full when its padded Initial+Handshake+1-RTT datagram is built — and
+         on the real packet builder over the coalescing x budget grid
 """
 from harness import core, rng, tree
 from harness.impl_recovery import fbits
@@ -143,78 +149,279 @@ class LedgerMonitor:
                 self.problem = f"{ep.name}: ack_eliciting_in_flight={sp.ack_eliciting_in_flight} but {ae} tracked after {name}"
 
 
-def connection_ledger(ctx, r, n):
-    """handshakes with optional Retry / Version Negotiation, then lossy traffic"""
+def run_ledger_scenario(variant, seed, algo):
+    """one handshake with optional Retry / Version Negotiation, then lossy traffic; everything
+    random derives from (variant, seed), so a replay file re-executes it exactly"""
+    import random
     from harness import sim as simmod
     from aioquic.quic.packet import encode_quic_retry, encode_quic_version_negotiation
+    r = random.Random(f"c08/{variant}/{seed}")
+    mon = LedgerMonitor()
+    copts = {"congestion_control_algorithm": algo}
+    if variant == "vn":
+        copts["supported_versions"] = [0x6B3343CF, 1]   # v2 first, server answers VN offering v1
+    s = simmod.Sim(seed, monitors=[mon], client_options=copts)
+    try:
+        s.connect()
+        c = s.client.conn
+        if variant == "retry":
+            s.pending.clear()
+            pkt = encode_quic_retry(version=c._version, source_cid=bytes(8), destination_cid=c.host_cid,
+                                    original_destination_cid=c._peer_cid.cid, retry_token=bytes(16))
+            s.api(s.client, "receive_datagram", pkt, simmod.SERVER_ADDR, now=s.now)
+            s.transmit(s.client)
+            s.pending.clear()     # the standalone server of the sim does not validate tokens
+        elif variant == "vn":
+            s.pending.clear()
+            pkt = encode_quic_version_negotiation(source_cid=c._peer_cid.cid, destination_cid=c.host_cid,
+                                                  supported_versions=[1])
+            s.api(s.client, "receive_datagram", pkt, simmod.SERVER_ADDR, now=s.now)
+            s.transmit(s.client)
+            s.pending.clear()
+        elif variant == "full":
+            # window filled during a blackout, then application pings / more writes / timers
+            s.fair_phase(max_steps=60, done=lambda: c._handshake_confirmed)
+            ep = r.choice(s.endpoints)
+            sid = 0 if ep.is_client else 1
+            s.api(ep, "send_stream_data", sid, bytes(r.choice([20000, 40000])), end_stream=False)
+            for _ in range(60):        # the pacer releases the window gradually
+                s.transmit(ep)
+                s.pending.clear()
+                s.now += 0.002
+                lo = ep.conn._loss
+                if lo.congestion_window - lo.bytes_in_flight < ep.conn._max_datagram_size:
+                    break
+            for i in range(r.randrange(3, 10)):
+                x = r.random()
+                if x < 0.4:
+                    s.api(ep, "send_ping", 100 + i)
+                elif x < 0.7:
+                    s.api(ep, "send_stream_data", sid, bytes(r.randrange(1, 3000)), end_stream=False)
+                else:
+                    s.fire_timer(ep)
+                s.transmit(ep)
+                s.pending.clear()
+        else:
+            s.fair_phase(max_steps=60, done=lambda: c._handshake_confirmed)
+            for i in range(r.randrange(5, 60)):
+                if r.random() < 0.3:
+                    ep = r.choice(s.endpoints)
+                    sid = 0 if ep.is_client else 1
+                    s.api(ep, "send_stream_data", sid, bytes(r.randrange(1, 4000)), end_stream=False)
+                    s.transmit(ep)
+                else:
+                    s.adversarial_step(p_drop=0.3)
+        for _ in range(6):
+            s.fire_timer(s.client)
+    finally:
+        s.close_taps()
+    return mon, s
+
+
+def connection_ledger(ctx, r, n):
+    """handshakes with optional Retry / Version Negotiation, then lossy traffic"""
     for k in range(n):
         seed = r.randrange(1 << 30)
-        mon = LedgerMonitor()
         variant = ["plain", "retry", "vn", "full"][k % 4]
-        copts = {"congestion_control_algorithm": r.choice(["reno", "cubic"])}
-        if variant == "vn":
-            copts["supported_versions"] = [0x6B3343CF, 1]   # v2 first, server answers VN offering v1
-        s = simmod.Sim(seed, monitors=[mon], client_options=copts)
-        trace = [variant]
-        try:
-            s.connect()
-            c = s.client.conn
-            if variant == "retry":
-                s.pending.clear()
-                pkt = encode_quic_retry(version=c._version, source_cid=bytes(8), destination_cid=c.host_cid,
-                                        original_destination_cid=c._peer_cid.cid, retry_token=bytes(16))
-                s.api(s.client, "receive_datagram", pkt, simmod.SERVER_ADDR, now=s.now)
-                s.transmit(s.client)
-                s.pending.clear()     # the standalone server of the sim does not validate tokens
-            elif variant == "vn":
-                s.pending.clear()
-                pkt = encode_quic_version_negotiation(source_cid=c._peer_cid.cid, destination_cid=c.host_cid,
-                                                      supported_versions=[1])
-                s.api(s.client, "receive_datagram", pkt, simmod.SERVER_ADDR, now=s.now)
-                s.transmit(s.client)
-                s.pending.clear()
-            elif variant == "full":
-                # window filled during a blackout, then application pings / more writes / timers
-                s.fair_phase(max_steps=60, done=lambda: c._handshake_confirmed)
-                ep = r.choice(s.endpoints)
-                sid = 0 if ep.is_client else 1
-                s.api(ep, "send_stream_data", sid, bytes(r.choice([20000, 40000])), end_stream=False)
-                for _ in range(60):        # the pacer releases the window gradually
-                    s.transmit(ep)
-                    s.pending.clear()
-                    s.now += 0.002
-                    lo = ep.conn._loss
-                    if lo.congestion_window - lo.bytes_in_flight < ep.conn._max_datagram_size:
-                        break
-                for i in range(r.randrange(3, 10)):
-                    x = r.random()
-                    if x < 0.4:
-                        s.api(ep, "send_ping", 100 + i)
-                    elif x < 0.7:
-                        s.api(ep, "send_stream_data", sid, bytes(r.randrange(1, 3000)), end_stream=False)
-                    else:
-                        s.fire_timer(ep)
-                    s.transmit(ep)
-                    s.pending.clear()
-            else:
-                s.fair_phase(max_steps=60, done=lambda: c._handshake_confirmed)
-                for i in range(r.randrange(5, 60)):
-                    if r.random() < 0.3:
-                        ep = r.choice(s.endpoints)
-                        sid = 0 if ep.is_client else 1
-                        s.api(ep, "send_stream_data", sid, bytes(r.randrange(1, 4000)), end_stream=False)
-                        s.transmit(ep)
-                    else:
-                        s.adversarial_step(p_drop=0.3)
-            for _ in range(6):
-                s.fire_timer(s.client)
-        finally:
-            s.close_taps()
+        algo = r.choice(["reno", "cubic"])
+        mon, s = run_ledger_scenario(variant, seed, algo)
         ctx.count(("conn-ledger", seed, variant), mon.calls > 10)
         if mon.problem:
-            ctx.witness(mon.problem, {"scenario": variant, "seed": seed, "trace": s.log[-30:]},
+            ctx.witness(mon.problem, {"harness": "ledger", "scenario": variant, "seed": seed, "algo": algo,
+                                      "trace": s.log[-30:]},
                         {"oracle": "connection-ledger", "scenario": variant})
     ctx.cov["traces_validated_against_impl"] += n
+
+
+# ---------------------------------------------------------------- nearly full window at handshake time
+def split_coalesced(data):
+    """the QUIC v1 packets coalesced in one datagram (RFC 9000 §12.2, §17.2: every long-header
+    packet carries its Length; a short-header packet extends to the end)"""
+    from harness import frames as F
+    out, i = [], 0
+    while i < len(data):
+        b0 = data[i]
+        if not b0 & 0x80:
+            out.append(data[i:])
+            break
+        j = i + 5
+        j += 1 + data[j]
+        j += 1 + data[j]
+        if (b0 & 0x30) == 0x00:       # Initial: token
+            n, j = F.get_varint(data, j)
+            j += n
+        n, j = F.get_varint(data, j)
+        out.append(data[i:j + n])
+        i = j + n
+    return out
+
+
+_tickets = {}
+
+
+def _ticket(mds):
+    """a session ticket (and the server-side store entry) obtained from a complete earlier connection"""
+    if mds not in _tickets:
+        from harness import sim as simmod
+        srv, cli = [], []
+        s0 = simmod.Sim(f"c08/ticket/{mds}", client_kwargs={"session_ticket_handler": cli.append},
+                        server_kwargs={"session_ticket_handler": srv.append},
+                        client_options={"max_datagram_size": mds}, server_options={"max_datagram_size": mds})
+        s0.handshake()
+        s0.fair_phase(max_steps=50, done=lambda: bool(cli))
+        s0.close_taps()
+        _tickets[mds] = (cli[0], {t.ticket: t for t in srv})
+    return _tickets[mds]
+
+
+def run_coalesce(seed, mds, algo, target, last_write):
+    """A resuming client fills its congestion window with 0-RTT data so that, at the moment its
+    datagram Initial(ACK) + Handshake(Finished) + 1-RTT(stream data) is built, exactly `target`
+    bytes of window remain (target swept around 1200 .. max_datagram_size).
+
+      1. connect + 0-RTT stream data (several datagrams in flight);
+      2. the server's reply datagram is split by the network: only its Initial packet arrives (ACK
+         of the client Initial, ServerHello) — no 1-RTT keys yet;
+      3. the client writes more 0-RTT data, sized from the packet overhead observed on the wire, until
+         cwnd - bytes_in_flight == target; these datagrams (carrying the Initial ACK) are lost;
+      4. the server's PTO retransmits Initial + Handshake + 1-RTT in one datagram: the client must
+         acknowledge the new Initial, finish the handshake and has 1-RTT data to send;
+      5. datagrams_to_send(): the flight-budget oracle of LedgerMonitor judges it; then the
+         connection runs on without loss.
+    Returns (monitor, sim, info)."""
+    from harness import sim as simmod
+    tick, store = _ticket(mds)
+    mon = LedgerMonitor()
+    s = simmod.Sim(seed, monitors=[mon],
+                   client_options={"max_datagram_size": mds, "session_ticket": tick,
+                                   "congestion_control_algorithm": algo},
+                   server_options={"max_datagram_size": mds, "congestion_control_algorithm": algo},
+                   server_kwargs={"session_ticket_fetcher": store.get})
+    info = {"reached": None, "coalesced": False}
+    try:
+        c, sv = s.client, s.server
+        lo = c.conn._loss
+        room = lambda: lo.congestion_window - lo.bytes_in_flight
+
+        def flush():
+            """datagrams_to_send until the pacer has released everything that fits"""
+            idle = 0
+            for _ in range(80):
+                idle = idle + 1 if s.transmit(c) == 0 else 0
+                if idle >= 3:
+                    break
+                s.now += 0.002
+
+        s.api(c, "connect", simmod.SERVER_ADDR, now=s.now)
+        s.api(c, "send_stream_data", 0, bytes(6 * mds))
+        flush()
+        first = s.pending[:]
+        s.pending.clear()
+        s.now += 0.01
+        for d in first:
+            s.api(sv, "receive_datagram", d["data"], d["from"], now=s.now)
+        s.transmit(sv)
+        reply = [d for d in s.pending if d["dst"] is c]
+        s.pending.clear()
+        if not reply:
+            return mon, s, info
+        s.now += 0.01
+        s.api(c, "receive_datagram", split_coalesced(reply[0]["data"])[0], reply[0]["from"], now=s.now)
+        # bring the remaining window to `target`: a coarse write, a probe write to learn the per-packet
+        # overhead from the implementation's own packet, then the exact one
+        if room() > target + 900:
+            s.api(c, "send_stream_data", 0, bytes(room() - target - 800))
+            flush()
+        before = room()
+        s.api(c, "send_stream_data", 0, bytes(200))
+        flush()
+        overhead = before - room() - 200
+        need = room() - target - overhead
+        if need >= 1:
+            s.api(c, "send_stream_data", 0, bytes(need))
+            flush()
+        info["reached"] = room()
+        s.pending.clear()                       # lost, with the client's Initial ACK
+        t = sv.conn._loss.get_loss_detection_time()
+        if t is not None:
+            s.now = max(s.now, t)
+        s.api(sv, "handle_timer", now=s.now)
+        s.transmit(sv)
+        again = [d for d in s.pending if d["dst"] is c]
+        s.pending.clear()
+        s.now += 0.01
+        for d in again[:1]:
+            s.api(c, "receive_datagram", d["data"], d["from"], now=s.now)
+        info["reached"] = room()
+        s.api(c, "send_stream_data", 0, bytes(last_write))
+        n0 = len(s.pending)
+        s.transmit(c)
+        out = s.pending[n0:]
+        info["coalesced"] = any(len(split_coalesced(d["data"])) >= 2 and not split_coalesced(d["data"])[-1][0] & 0x80
+                                for d in out)
+        info["datagrams"] = [len(d["data"]) for d in out]
+        s.fair_phase(max_steps=60, done=lambda: c.conn._handshake_confirmed and not s.pending)
+    finally:
+        s.close_taps()
+    return mon, s, info
+
+
+def coalesce_targets(mds):
+    return sorted({1199, 1200, 1201, 1216, (1200 + mds) // 2, mds - 64, mds - 1, mds, mds + 1, 2 * mds - 40})
+
+
+def coalesce_budget(ctx, r, thorough):
+    """window within [1199, max_datagram_size + 1] (and beyond) of full when a padded
+    Initial + Handshake + 1-RTT datagram is built, Reno and CUBIC, four datagram sizes"""
+    n = hit = band = 0
+    for mds in (1200, 1280, 1350, 1500):
+        targets = coalesce_targets(mds)
+        if thorough:
+            targets = sorted(set(targets) | set(range(1196, mds + 4, 7)))
+        for algo in ("reno", "cubic"):
+            for target in targets:
+                seed = r.randrange(1 << 30)
+                last = r.choice([1, 300, 3000])
+                mon, s, info = run_coalesce(seed, mds, algo, target, last)
+                n += 1
+                hit += info["reached"] == target
+                inband = info["coalesced"] and info["reached"] is not None and 1200 <= info["reached"] < mds
+                band += inband
+                ctx.count(("coalesce", mds, algo, target, last), info["coalesced"])
+                if mon.problem:
+                    ctx.witness(mon.problem, {"harness": "coalesce", "seed": seed, "mds": mds, "algo": algo,
+                                              "target": target, "last_write": last, "window_left": info["reached"],
+                                              "datagrams": info.get("datagrams"), "trace": s.log[-12:]},
+                                {"oracle": "connection-ledger", "scenario": "coalesce"})
+    ctx.cov["traces_validated_against_impl"] += n
+    ctx.notes["coalesce"] = {"runs": n, "window_exactly_at_target": hit, "padded_initial_1rtt_datagram_with_window_in_[1200,mds)": band}
+    if band == 0:
+        ctx.broken.append({"kind": "audit", "hit": "coalesce scenario never produced a padded Initial+1-RTT datagram "
+                                                   "with the remaining window in [1200, max_datagram_size)"})
+
+
+# ---------------------------------------------------------------- the builder under a flight budget
+def builder_flight(ctx, thorough):
+    """last clause at the place that enforces it: for every padding-requiring Initial coalesced with
+    Handshake / 0-RTT / 1-RTT packets, over the budget grid of harness/gen_builder.gen_coalesce(), the
+    in-flight packet bytes the real QuicPacketBuilder returns never exceed the max_flight_bytes it
+    was given (oracle: harness/oracle_builder, reading only what flush() returned)"""
+    from harness import gen_builder as G, oracle_builder as O
+    from harness.impl_builder import BuilderImpl
+    n = 0
+    for case in G.gen_coalesce():
+        t = case[0].split()
+        if t[7] == "none" or (t[8] != "none" and not thorough):
+            continue
+        case, out = G.resolve(case, BuilderImpl)      # "@cap"/"@half"/"@all" -> sizes the builder offered
+        n += 1
+        v = O.check(case, out, True)
+        ctx.count(("builder-flight", tuple(case)), any(o.startswith("ok d=[1") for o in out))
+        if v and v[0] == "flight":
+            ctx.witness("packet builder: " + v[1], {"harness": "builder", "ops": case, "impl_output": out},
+                        {"oracle": "builder-flight"})
+    ctx.cov["traces_validated_against_impl"] += n
+    ctx.notes["builder_flight_cases"] = n
 
 
 def nontrivial(case, out):
@@ -237,7 +444,8 @@ def main(tier):
     ctx.assumptions = [
         "packet numbers given to on_packet_sent are fresh within a space (the connection uses one increasing counter)",
         "CUBIC window floor: int(c + y) >= c for y >= 0 and W_est monotone (IEEE-754 order facts, stated as hypotheses)",
-        "flight-budget clause (in-flight bytes per datagrams_to_send <= window) is decided with C13's builder model",
+        "flight-budget clause: proved on C13's builder model; here it is evaluated on the implementation only "
+        "(per datagrams_to_send() of real connections, and on the real builder's flush() output)",
     ]
     r = rng.make("c08")
     thorough = tier == "thorough"
@@ -249,11 +457,54 @@ def main(tier):
         cases = [gen_case(r, algo, r.choice([10, 40]), wellformed=False) for _ in range(n // 3)]
         core.run_cases(ctx, f"recovery-{algo}-malformed", cases, RecoveryImpl, None, nontrivial)
     connection_ledger(ctx, r, 32 if not thorough else 800)
+    coalesce_budget(ctx, r, thorough)
+    builder_flight(ctx, thorough)
     ctx.cov["rule"] = (
         "random interleavings of send / ack(arbitrary range sets incl. never-sent and already-acked numbers) / "
         "loss-detection timeout / space discard at arbitrary times for Reno and CUBIC (well-formed: fresh packet "
         "numbers; malformed: reused numbers, bad space index — correspondence only). Non-trivial = at least one "
         "packet reported ACKED and one LOST; distinct by op-sequence hash. Plus real client/server connections (plain lossy "
-        "traffic, client receiving a Retry, client receiving Version Negotiation) with the ledger oracle after every API call."
+        "traffic, client receiving a Retry, client receiving Version Negotiation, window filled by a blackout) with the "
+        "ledger oracle after every API call and the flight-budget oracle on every datagrams_to_send(); a resuming client "
+        "whose 0-RTT data leaves 1199 .. max_datagram_size+1 bytes of window (exact, by sizing the last write from the "
+        "observed packet overhead) when its padded Initial+Handshake+1-RTT datagram is built, for Reno/CUBIC x "
+        "max_datagram_size 1200/1280/1350/1500; the real packet builder over the coalescing x flight-budget grid."
     )
     return ctx.finish()
+
+
+def replay(path):
+    """re-execute a recorded failing input against the current tree"""
+    import json
+    tree.activate()
+    import logging
+    logging.disable(logging.CRITICAL)
+    d = json.load(open(path))
+    if d.get("kind") != "impl-witness":
+        print("replay names a broken obligation/correspondence, nothing to execute:",
+              json.dumps(d.get("broken", []), default=str)[:600])
+        return 1
+    rp, sig = d["replay"], d.get("signature", {})
+    p = None
+    if rp.get("harness") == "coalesce":
+        mon, _, info = run_coalesce(rp["seed"], rp["mds"], rp["algo"], rp["target"], rp["last_write"])
+        p = mon.problem
+    elif rp.get("harness") == "ledger":
+        mon, _ = run_ledger_scenario(rp["scenario"], rp["seed"], rp["algo"])
+        p = mon.problem
+    elif rp.get("harness") == "builder":
+        from harness import oracle_builder as O
+        from harness.impl_builder import BuilderImpl
+        impl = BuilderImpl()
+        out = [impl.step(l) for l in rp["ops"]]
+        v = O.check(rp["ops"], out, True)
+        p = v[1] if v and v[0] == "flight" else None
+    elif "ops" in rp:
+        from harness.impl_recovery import RecoveryImpl
+        impl = RecoveryImpl()
+        p = oracle(rp["ops"], [impl.step(l) for l in rp["ops"]])
+    else:
+        print("replay file names no executable input")
+        return 1
+    print("still failing: " + p if p else "no longer failing")
+    return 1 if p else 0
